@@ -1,0 +1,16 @@
+//go:build verif
+
+package lsp
+
+import lsp "pkg.nimblebun.works/go-lsp"
+
+// VerifPositionToIdx exposes the position -> byte offset conversion.
+func VerifPositionToIdx(s string, line, character int) int {
+	return lspPositionToIdx(s, lsp.Position{Line: line, Character: character})
+}
+
+// VerifPositionFromIdx exposes the byte offset -> position conversion.
+func VerifPositionFromIdx(s string, idx int) (line, character int) {
+	p := lspPositionFromIdx(s, idx)
+	return p.Line, p.Character
+}
